@@ -32,7 +32,7 @@ ASSUMPTIONS = ['repeated calls are compared to 1e-12 relative rather than bit-fo
                'propagate_fft(scratch=), Spectrum.crop/trim/pad/append/resample/to']
 PLAN = {'quick': {'gen': 8}, 'thorough': {'gen': 16, 'tests': 1}}
 REQUIRED_BUCKETS = ['op:Plane()', 'op:Pupil(mask3d)', 'op:multiply', 'op:propagate_dft', 'op:propagate_fft', 'op:fit_tilt',
-                    'op:rescale', 'op:adc', 'op:collect_charge', 'op:collect_charge_bayer', 'op:pixel', 'op:jitter', 'op:smear',
+                    'op:rescale', 'op:adc', 'op:collect_charge', 'op:collect_charge_bayer', 'op:tilt-multiply', 'op:pixel', 'op:jitter', 'op:smear',
                     'op:dft2', 'op:idft2', 'op:zernike_fit', 'op:pad', 'op:rebin', 'op:power_spectrum', 'op:Spectrum.multiply',
                     'op:Spectrum.sample', 'op:Spectrum.bin', 'op:shot_noise', 'op:read_noise', 'program', 'dft-keys>32',
                     'replayed']
@@ -93,6 +93,7 @@ def result_digest(r, depth=0):
         out = [np.array([float(r.wavelength), float(r.focal_length) if r.focal_length is not None else np.nan])]
         for f in r.data:
             out += result_digest(np.asarray(f.data)) + [np.asarray(f.offset, float).ravel()]
+            out.append(np.array([float(getattr(t, a, 0.0)) for t in f.tilt for a in ('x', 'y')] + [float(len(f.tilt))]))
         return out
     if hasattr(r, '_wave'):                                   # Spectrum
         return [np.asarray(r._wave, float).ravel(), np.asarray(r._value, float).ravel()]
@@ -173,6 +174,31 @@ def catalogue(lentil, rng):
             w2 = w1 * lentil.Pupil(amplitude=a['amp'], pixelscale=1e-3, focal_length=5.0)
             return w2, [('plane', fp0, probe.fingerprint(p)), ('wavefront', fw0, probe.fingerprint(w)),
                         ('wavefront-1', fw1, probe.fingerprint(w1))]
+        return a, call
+
+    @op('tilt-multiply')
+    def _():
+        shape, a = pupil_args()
+        how = int(rng.integers(0, 3))
+        tx, ty = float(rng.normal() * 1e-6), float(rng.normal() * 1e-6)
+        def call(a):
+            p = mk_pupil(a)
+            if how == 0:
+                w1 = lentil.Wavefront(6e-7) * p.fit_tilt()
+            elif how == 1:
+                w1 = lentil.Wavefront(6e-7, tilt=[1e-6, -2e-6]) * p
+            else:
+                w1 = lentil.Wavefront(6e-7) * p * lentil.Tilt(x=2e-6, y=1e-6)
+            f1 = probe.fingerprint(w1)
+            t = lentil.Tilt(x=tx, y=ty)
+            r1 = w1 * t
+            d1 = result_digest(r1)                       # snapshot before anything else happens
+            f1b = probe.fingerprint(w1)
+            r2 = w1 * lentil.DispersiveTilt(trace=[1.0, 0.0], dispersion=[1e-4, 5e-7])
+            r3 = w1 * lentil.Tilt(x=tx, y=ty)
+            same = same_digest(d1, result_digest(r3)) and same_digest(d1, result_digest(r1))
+            return (r1, r2), [('wavefront', f1, f1b), ('wavefront-after-3', f1, probe.fingerprint(w1)),
+                              ('repeat', 'same', 'same' if same else 'changed')]
         return a, call
 
     @op('propagate_dft')
@@ -266,8 +292,8 @@ def catalogue(lentil, rng):
                      ('jitter', lambda im: lentil.jitter(im, 1.3, oversample=2)),
                      ('smear', lambda im: lentil.smear(im, 2.5, angle=30.0)),
                      ('charge_diffusion', lambda im: D.charge_diffusion(im, 0.5, 2)),
-                     ('shot_noise', lambda im: D.shot_noise(im * 100, 'poisson', seed=7)),
-                     ('read_noise', lambda im: D.read_noise(im, 5.0, seed=11)),
+                     ('shot_noise', lambda im: (D.shot_noise(im * 100, 'poisson', seed=7), D.shot_noise(im * 1000, 'gaussian', seed=0))),
+                     ('read_noise', lambda im: (D.read_noise(im, 5.0, seed=11), D.read_noise(im, 5.0, seed=0), D.dark_current(40.0, im.shape, 0.2, seed=0))),
                      ('normalize_power', lambda im: U.normalize_power(im, 2.0)),
                      ('centroid', lambda im: np.array(U.centroid(im))),
                      ('boundary', lambda im: np.array(U.boundary(im, 0.5))),
@@ -321,7 +347,7 @@ def catalogue(lentil, rng):
     def _():
         shape = gen.rshape(rng, 6, 24)
         mask = gen.support(rng, shape, kind=3).astype(float)
-        return {'mask': mask}, lambda a: (lentil.power_spectrum(a['mask'], 1e-2, 5e-8, 4.0, 3.0, seed=3),
+        return {'mask': mask}, lambda a: (lentil.power_spectrum(a['mask'], 1e-2, 5e-8, 4.0, 3.0, seed=3), lentil.power_spectrum(a['mask'], 1e-2, 5e-8, 4.0, 3.0, seed=0),
                                           lentil.wfe.translation_defocus(a['mask'], 10.0, 1e-4))
 
     def spectra():
@@ -402,6 +428,10 @@ def run_op(ctx, name, args, call, phase):
         if label == 'dft-cache':
             ctx.check(after == 'ok', 'dft-cache-intact', 'dft-cache|poisoned',
                       'cached DFT coordinate vectors no longer equal arange(n) - floor(n/2)', {'op': name})
+        elif label == 'repeat':
+            ctx.check(after == 'same', 'history-deterministic', f'nondeterministic|{name}|repeat',
+                      f'{name}: repeating the call on the same operands gave a different result (or changed an earlier result)',
+                      {'op': name, 'phase': phase})
         else:
             ctx.check(before == after, 'inputs-unchanged', f'mutated|{name}|{label}',
                       f'{name} modified a caller-owned {label.split("-")[0]}', {'op': name, 'object': label, 'phase': phase})
